@@ -4,6 +4,7 @@ SPEC = {
         {"comp": "bloom", "module": "QV.Model.BloomLog", "quick": 1200, "thorough": 10000},
         {"comp": "token_cache", "module": "QV.Model.TokenCache", "quick": 1500, "thorough": 15000},
         {"comp": "token_decision", "module": "QV.Model.TokenDecision", "quick": 1000, "thorough": 8000},
+        {"comp": "sim_c14", "module": "QV.Sys.MonC02", "quick": 60, "thorough": 1500},
     ],
     "assumptions": [
         "AEAD unforgeability of Token::decode (whatever opens under the server's token key is the unmodified encoding of a token that "
@@ -18,7 +19,9 @@ SPEC = {
 }
 
 MANIFEST = {
-    "text": ("Component level of C14, proved in Coq for all histories (unbounded, by induction): BloomTokenLog accepts no "
+    "text": ("System level (trace-validated on real endpoints, sim_c14): a client that has followed one Retry discards a second, "
+             "well-formed Retry injected by an on-path attacker before the server's Initial, and the handshake completes. "
+             "Component level of C14, proved in Coq for all histories (unbounded, by induction): BloomTokenLog accepts no "
              "(nonce, issued) pair twice for any non-zero lifetime, any clock behaviour, both turnover arms, any point of the "
              "Set->Bloom switch and any false-positive behaviour (bloom_single_use), zero lifetime always rejects; "
              "TokenMemoryCache never panics, respects both capacities (incl. 0), keeps queues non-empty, hands out each stored "
